@@ -27,9 +27,34 @@ var commonAssumptions = []string{
 }
 
 var props = map[string]propCfg{
+	"C07": {
+		QuickBatches: 16, ThoroughBatches: 128, Parallel: 16, Level: "exploration", Floor: 1000,
+		Rule:        "(1) CRC-valid frames for each of 19 type numbers (1005, 1006, the 14 MSM types, 1230, 1, 4095) x EVERY payload length 1..1023 x payload shapes (uniform random, sparse, all ones, plausible header with few mask bits, masks announcing 65..2048 cells, zeros), plus all 256 one-byte payloads; (2) well-formed 1005/1006/MSM bodies (independent encoder) truncated at every byte position, with mask bits forced upward, and with illegal timestamps; (3) arbitrary streams through the stream handler (all 0xD3, maximal length claims with short data, random up to 20 kB / 1 MB, hostile mixes). Each frame goes through single-frame decoding, Copy, String, Analyse, PrepareForDisplay and String again at both log levels under recover(); streams run on the handler's own goroutine so a panic there ends the child and is attributed to the on-disk witness. A case that runs for 60 s (>10^4 x median) is re-run alone and only then called a hang. Non-trivial: a CRC-valid frame of a decodable type shorter than / inconsistent with its layout, or a hostile stream. Distinct by hash of the bytes.",
+		Assumptions: commonAssumptions,
+	},
+	"C01": {
+		QuickBatches: 8, ThoroughBatches: 64, Parallel: 16, Level: "exploration", Floor: 200,
+		Rule:        "hostile streams (valid frames of random type/length, stray 0xD3 runs, near-miss leaders, frames with one corrupted CRC byte / payload byte / forced 0xD3 / burst, length-field edits with and without CRC recomputation, truncated frames, NMEA/UBX/HTTP-like junk, random bytes dense in 0xD3) run through the stream handler, every typed delivery checked with an independent frame predicate (bitwise CRC-24Q); plus direct single-frame decoding of candidates (valid, valid+trailing bytes, crafted over-long inputs whose declared-length prefix has a bad CRC but whose whole has a good one, corrupted, truncated, zero-length, random). A stream is non-trivial when the gate took both outcomes (>=1 typed delivery and >=1 rejected 0xD3-led candidate); a direct call is non-trivial when the input is 0xD3-led and rejected, or typed with input longer than the frame. Distinct by hash of the input bytes.",
+		Assumptions: commonAssumptions,
+	},
+	"C02": {
+		Race: true, QuickBatches: 16, ThoroughBatches: 64, Parallel: 8, Level: "exploration", Floor: 200,
+		Rule:        "inputs: empty, lone 0xD3, 0xD3 runs, junk ending in 0xD3, every truncation point of a frame (alone and after a complete frame), hostile and clean generated streams; each run under several schedules: input channel capacity in {0,1,2,64,len}, output capacity in {0,1,8}, producer/consumer timing profiles (full speed, frequent yields, rare sleeps, bursts), GOMAXPROCS in {1,2,4,16}, and check-time yield/sleep hooks before every channel operation of the handler. Oracle: concatenation of delivered raw bytes equals the input, no empty message, output closed (range terminates), HandleMessages returned; a second close or send-after-close is observed as a crash of the child; race detector on. Non-trivial: the input has segments of at least two kinds or ends inside a frame. Distinct by hash of (input, capacities, GOMAXPROCS, profiles).",
+		Assumptions: commonAssumptions,
+	},
+	"C03": {
+		QuickBatches: 8, ThoroughBatches: 64, Parallel: 16, Level: "exploration", Floor: 200,
+		Rule:        "streams built from valid frames (any type, payload 1..1023; every payload length swept at least once; 0xD3 forced into payloads and found in CRC bytes), 0xD3-free junk runs (NMEA, UBX-like, HTTP, random; adjacent runs merged) and an optional truncated final frame (every truncation position of short frames swept). The expected (type, bytes) sequence is the generator's own segment list - no reference parser. Non-trivial: >=2 frames and (>=1 junk run or a truncated tail). Distinct by hash of the stream bytes.",
+		Assumptions: commonAssumptions,
+	},
+	"C12": {
+		QuickBatches: 8, ThoroughBatches: 64, Parallel: 16, Level: "fault_enumeration", Floor: 1000,
+		Rule:        "streams of 2..5 short frames and 0xD3-free junk; every frame in turn is the victim; faults: every single-bit flip of payload and CRC (exhaustive for the short frames), every byte overwritten by 0xD3 and by 0x00, random multi-bit sets, bursts of 2..32 bits, CRC-only and payload-only corruption, plus random faults in large frames; the 3-byte leader is never touched; corruptions that keep the CRC valid are skipped and counted. Expected sequence by construction: the victim as one non-RTCM message with exactly its corrupted bytes, every other segment unchanged. Non-trivial: the victim has a successor frame. Distinct by hash of (faulted stream, victim index).",
+		Assumptions: commonAssumptions,
+	},
 	"C14": {
 		QuickBatches: 8, ThoroughBatches: 64, Parallel: 16, Level: "exploration", Floor: 1000, MayBeExhaustive: true,
-		Rule: "structured part: every alignment (pos mod 8 in 0..7) x every width 1..64 (signed 2..64) x byte offsets {0,1,7} x patterns {all 0, all 1, walking 1, walking 0, min of width, max of width, 0xAA, 0x55}, each compared with a math/big extraction and re-run on a copy with all outside bits complemented; plus seeded random (buffer,pos,width) triples. A case is non-trivial when the field is not all-zero bits and does not start on a byte boundary or spans more than one byte; distinct by hash of (buffer,pos,width,signedness).",
+		Rule:        "structured part: every alignment (pos mod 8 in 0..7) x every width 1..64 (signed 2..64) x byte offsets {0,1,7} x patterns {all 0, all 1, walking 1, walking 0, min of width, max of width, 0xAA, 0x55}, each compared with a math/big extraction and re-run on a copy with all outside bits complemented; plus seeded random (buffer,pos,width) triples. A case is non-trivial when the field is not all-zero bits and does not start on a byte boundary or spans more than one byte; distinct by hash of (buffer,pos,width,signedness).",
 		Assumptions: commonAssumptions,
 	},
 }
